@@ -396,24 +396,58 @@ def natLe (a b : Nat) : Bool := decide (a ≤ b)
 def conectLine (L : PdbLayout) (ids : List Nat) : List Char :=
   L.conectPrefix ++ ids.flatMap (fun (i : Nat) => renderField L.conectNum (.int (i : Int)))
 
-def molConectLines (L : PdbLayout) (start : Nat) (m : Mol) : Except Err (List (List Char)) :=
-  let tbl := serialTable start (sortedNodes m)
-  let adj := adjacency m.edges
-  m.atoms.foldr (fun a acc => do
-      let rest ← acc
-      let own ← match tbl.get? a.key with | some s => pure s | none => throw Err.keyerror
-      let ids ← (upperNbrs adj a.key).mapM (fun k =>
-          match tbl.get? k with | some s => pure s | none => throw Err.keyerror)
-      let todo := ids.mergeSort natLe
-      pure ((chunks L.conectChunk todo).map (fun c => conectLine L (own :: c)) ++ rest))
-    (.ok [])
-
-def conectLines (L : PdbLayout) (start : Nat) : List Mol → Except Err (List (List Char))
+/-- `nodeidx2atomid[(mol_idx, n_idx)] for n_idx in ...` (a missing key is a KeyError) -/
+def lookupAll (tbl : Std.HashMap Int Nat) : List Int → Except Err (List Nat)
   | [] => .ok []
-  | m :: ms => do
-      let a ← molConectLines L start m
-      let r ← conectLines L (start + m.atoms.length + 1) ms
-      pure (a ++ r)
+  | k :: ks =>
+    match tbl.get? k with
+    | none => .error .keyerror
+    | some s =>
+      match lookupAll tbl ks with
+      | .ok r => .ok (s :: r)
+      | .error e => .error e
+
+/-- the CONECT records owned by one node: its serial followed by at most `chunk` partner serials,
+partners = neighbours with a larger key, sorted by serial -/
+def atomConectRecords (chunk : Nat) (tbl : Std.HashMap Int Nat) (adj : Std.HashMap Int (List Int)) (a : Atom) :
+    Except Err (List (List Nat)) :=
+  match tbl.get? a.key with
+  | none => .error .keyerror
+  | some own =>
+    match lookupAll tbl (upperNbrs adj a.key) with
+    | .error e => .error e
+    | .ok ids => .ok ((chunks chunk (ids.mergeSort natLe)).map (own :: ·))
+
+/-- `for node_idx in molecule:` (node insertion order) -/
+def atomsConectRecords (chunk : Nat) (tbl : Std.HashMap Int Nat) (adj : Std.HashMap Int (List Int)) :
+    List Atom → Except Err (List (List Nat))
+  | [] => .ok []
+  | a :: r =>
+    match atomConectRecords chunk tbl adj a with
+    | .error e => .error e
+    | .ok x =>
+      match atomsConectRecords chunk tbl adj r with
+      | .error e => .error e
+      | .ok y => .ok (x ++ y)
+
+def molConectRecords (L : PdbLayout) (start : Nat) (m : Mol) : Except Err (List (List Nat)) :=
+  atomsConectRecords L.conectChunk (serialTable start (sortedNodes m)) (adjacency m.edges) m.atoms
+
+/-- CONECT records (as serial lists) of all molecules; `start` = first serial of the molecule -/
+def conectRecords (L : PdbLayout) (start : Nat) : List Mol → Except Err (List (List Nat))
+  | [] => .ok []
+  | m :: ms =>
+    match molConectRecords L start m with
+    | .error e => .error e
+    | .ok a =>
+      match conectRecords L (start + (sortedNodes m).length + 1) ms with
+      | .error e => .error e
+      | .ok r => .ok (a ++ r)
+
+def conectLines (L : PdbLayout) (start : Nat) (sys : List Mol) : Except Err (List (List Char)) :=
+  match conectRecords L start sys with
+  | .ok rs => .ok (rs.map (conectLine L))
+  | .error e => .error e
 
 /-- `write_pdb_string(system, conect)`: the list of lines (joined with '\n' by the code) -/
 def writePdb (L : PdbLayout) (conect : Bool) (sys : List Mol) : Except Err (List (List Char)) := do
